@@ -72,6 +72,7 @@ struct C31 : drv::Harness
 				bool rep = rng.chance(0.35);
 				p.ops.push_back(Op("sched", { used++, rng.chance(0.2) ? rng.range(1, 3) : rng.range(1, 200), rep, rep && rng.chance(0.6) ? rng.range(1, 4) : 0, rng.chance(0.25) ? rng.range(1, 8) : 0, helper && rng.chance(0.5) }));
 			}
+			else if (w < 72) p.ops.push_back(Op("wait_us", { rng.range(1, 999) }));      // a fraction of a millisecond: later events are due in the same millisecond as earlier ones, but later
 			else if (w < 90) p.ops.push_back(Op("wait", { rng.chance(0.3) ? rng.range(0, 5) : rng.range(1, 150) }));
 			else if (!cleared) { p.ops.push_back(Op("clear")); cleared = rng.chance(0.7); }
 		}
@@ -103,6 +104,7 @@ struct C31 : drv::Harness
 				do_sched(*w, op);
 			}
 			else if (op.k == "wait") sim::advance(op.arg(0) * 1000000ll);
+			else if (op.k == "wait_us") sim::advance(op.arg(0) * 1000ll);
 			else if (op.k == "clear")
 			{
 				if (hstarted) { pthread_join(hth, nullptr); hstarted = false; w->helper_ops.clear(); }   // keep "pending at clear" well defined
